@@ -152,9 +152,10 @@ class InitMethod(MethodDescriptor):
         # status.
         if instance_metadata.owner is spec_cls:
             if instance_metadata.init_overflow_attr:
-                getattr(
-                    self, f"with_{instance_metadata.init_overflow_attr}"
-                )(  # TODO: avoid this
+                # (Stored like every other attribute during construction: the
+                # attributes just assigned are not "invalidated" by it.)
+                self.__setattr__(
+                    instance_metadata.init_overflow_attr,
                     {
                         # (Like every other constructor argument, overflow
                         # values are copied rather than shared with the caller.)
@@ -164,7 +165,8 @@ class InitMethod(MethodDescriptor):
                         or not instance_metadata.attrs[key].init
                         or key == instance_metadata.init_overflow_attr
                     },
-                    _inplace=True,
+                    force=True,
+                    skip_invalidation=True,
                 )
 
             # Look up `__post_init__` on the instance's class, so that overrides
